@@ -866,6 +866,14 @@ def main():
     for n, h in sorted(handlers.items()):
         for e_states, e_el, e_extra, e_stmts in h.early:
             helpers.append(('%s:early-take:%s' % (n, e_el), ['states ' + ' '.join(e_states), 'if ' + e_extra] + e_stmts))
+    # the comparison chain on `when` of start_glib_signal, with its default branch (a value of `when` that matches none
+    # of the literals reaches it: Props/C15.lean lists such values as elseBranchByDesign)
+    wm = re.search(r'if \(when == NULL \|\|.*?signal->run_\w+ = TRUE;\s*(?:else if [^;]*;\s*)*(?:else\s*signal->run_\w+ = TRUE;)?',
+                   fns.get('start_glib_signal', ''), re.S)
+    if wm:
+        helpers.append(('start_glib_signal:when', [norm(x) for x in wm.group(0).split(';') if norm(x)]))
+    else:
+        shape('start_glib_signal: comparison chain on `when` not found')
     # any other state_switch to PASSTHROUGH inside a start_* function must be unconditional (start_instance_parameter)
     for n, h in handlers.items():
         if 'STATE_PASSTHROUGH' in h.switches and len([x for x in h.switches if x.startswith('STATE_')]) != 1:
